@@ -627,6 +627,9 @@ func c02CallSites(c *Ctx) {
 						break
 					}
 				}
+				if !found {
+					why, found = c.reviewedThroughCallers(name, cipherSites, 0, map[string]bool{})
+				}
 				if found {
 					c.R.OK(rule, key, pos, why)
 				} else {
